@@ -5,7 +5,7 @@ from checks.c19 import multi_fault_items
 
 
 def workload(g, tier):
-    nvalid, nfault, nsoup = (1500, 800, 800) if tier == "quick" else (40000, 20000, 40000)
+    nvalid, nfault, nsoup = (3000, 1500, 2500) if tier == "quick" else (40000, 20000, 40000)
     items = [("valid", xgen.gen(g)) for _ in range(nvalid)]
     items += [("faulty", it) for it in multi_fault_items(g, nfault, 1, 3)]
     res = []
